@@ -69,7 +69,7 @@ TEXT_STRINGS = ['foo', 'http://emmet.io', 'info@emmet.io', 'foo\nbar', '<div>foo
 PEER_STYLES = ['identity', 'textmate', 'marker', 'escape', 'double', 'drop', 'upper', 'mixed']
 
 PROBE_TEXT = ['ul>li*', 'ul>.item$*', 'img[src="$#"]*', 'div>p', 'a', 'p{$#}*', '(li>a)*', 'div>ul>li*>a']
-PROBE_BEM = ['div.b>div.-e_m', '.b>.-e>.--x', '.blk>.-a+.-b_m', 'ul.nav>.-item*2>a.-link']
+PROBE_BEM = ['div.b>div.-e_m', '.b>.-e>.--x', '.blk>.-a+.-b_m', 'ul.nav>.-item*2>a.-link', '.-e', '.-e_m', 'ul>.-item*2', 'p._m']
 
 
 def subset_options(rng, pool, p):
@@ -186,7 +186,7 @@ class Gen:
             spec['variables'] = {'charset': 'ru-RU', 'lang': pick(rng, ['ru', 'en-GB']), 'var': 'V'}
         if sw['text'] and maybe(rng, 0.8):
             spec['text'] = gen_text(rng)
-        if sw['context'] and maybe(rng, 0.6):
+        if (sw['context'] and maybe(rng, 0.6)) or (sw['bem'] and maybe(rng, 0.4)):
             ctx = {'name': pick(rng, ['ul', 'div', 'table', 'span', 'select'])}
             if sw['bem'] or maybe(rng, 0.3):
                 ctx['attributes'] = {'class': pick(rng, ['ctx-block', 'cb cb_m', ''])}
@@ -244,6 +244,8 @@ class Gen:
             if (reveal and spec.get('cache') is not None and numdef) or (numdef and spec.get('cache') is not None and r < 0.45):
                 abbr = pick(rng, numdef)
                 tags.append('numdef')
+            elif r < 0.55:
+                abbr = pick(rng, ga.DEPENDENT_PROBES)
             elif r < 0.7:
                 abbr = pick(rng, ga.STYLESHEET_CORPUS)
             else:
@@ -255,8 +257,8 @@ class Gen:
             if reveal and spec.get('text') and maybe(rng, 0.8):
                 abbr = pick(rng, PROBE_TEXT)
                 tags.append('text-probe')
-            elif reveal and feat['bem']:
-                abbr = pick(rng, PROBE_BEM)
+            elif (reveal or r < 0.25) and feat['bem']:
+                abbr = pick(rng, PROBE_BEM[4:] if (spec.get('context') and maybe(rng, 0.7)) else PROBE_BEM)
             elif r < 0.35:
                 abbr = pick(rng, ga.MARKUP_CORPUS)
             elif r < 0.45 and user:
@@ -353,6 +355,10 @@ class Gen:
                     if op['op'] == 'clone_cfg':
                         n_clones += 1
                     ops.append(op)
+                    # after the host touched a config, look at it
+                    touched = op.get('cfg') or op.get('dst')
+                    if touched in live and maybe(rng, 0.6):
+                        reveal_on = touched
                     continue
             cid = pick(rng, cids)
             spec = live[cid]
@@ -404,10 +410,25 @@ class Gen:
             elif kind == 'F5':
                 mode = pick(rng, ['nth', 'func'])
                 op['fault'] = {'kind': 'F5', 'mode': mode, 'frac': round(rng.random(), 5), 'frac2': round(rng.random(), 5)}
+                if maybe(rng, 0.2):
+                    op['fault']['exc'] = 'base'
                 reveal_on = cid
             if tags:
                 op['tags'] = tags
             ops.append(op)
+        # closing probes: every config whose last call failed (or was faulted) is asked once
+        # more, so that damage done by the last ops of a history cannot go unobserved
+        last = {}
+        for op in ops:
+            if op['op'] in ('call', 'repeat3'):
+                last[op['cfg']] = bool(op.get('fault') or op.get('nat'))
+        for cid in sorted(last):
+            if last[cid] and cid in live and live[cid].get('holder') != 'none':
+                abbr, tags, nat = self.abbr_for(live[cid], sw, reveal=True)
+                op = {'op': 'call', 'cfg': cid, 'abbr': abbr, 'pin': rng.randrange(1000), 'closing': True}
+                if tags:
+                    op['tags'] = tags
+                ops.append(op)
         return {'world': world, 'ops': ops, 'meta': {'swarm': sw}}
 
     def host_op(self, world, live, sw, n_clones):
@@ -452,6 +473,8 @@ class Gen:
         stype = spec.get('type', 'markup')
         pool = STYLE_OPTION_POOL if stype == 'stylesheet' else MARKUP_OPTION_POOL
         r = rng.random()
+        if spec.get('context') and maybe(rng, 0.35):
+            r = 0.7     # context edit (below)
         if r < 0.65:
             key = pick(rng, sorted(pool))
             if key == 'bem.enabled' and not sw['bem']:
@@ -461,6 +484,20 @@ class Gen:
             if maybe(rng, 0.15):
                 op = {'op': 'edit_cfg', 'cfg': cid, 'path': ['options', key], 'delete': True, 'inplace': maybe(rng, 0.5)}
             return op
+        if r < 0.72 and spec.get('context'):
+            # the editor moved the caret: the context changes, in place or by a new dict
+            if stype == 'stylesheet':
+                name = pick(rng, ['@@section', '@@property', '@@value', 'margin', 'display', 'zoom', 'line-height'])
+                if maybe(rng, 0.5):
+                    return {'op': 'edit_cfg', 'cfg': cid, 'path': ['context', 'name'], 'value': name, 'inplace': True}
+                return {'op': 'edit_cfg', 'cfg': cid, 'path': ['context'], 'value': {'name': name}}
+            attrs = {'class': pick(rng, ['ctx-block', 'cb cb_m', 'other', 'nav', ''])}
+            r2 = rng.random()
+            if r2 < 0.4:
+                return {'op': 'edit_cfg', 'cfg': cid, 'path': ['context', 'attributes'], 'value': attrs, 'inplace': True}
+            if r2 < 0.6:
+                return {'op': 'edit_cfg', 'cfg': cid, 'path': ['context', 'name'], 'value': pick(rng, ['ul', 'div', 'table', 'span', 'select']), 'inplace': True}
+            return {'op': 'edit_cfg', 'cfg': cid, 'path': ['context'], 'value': {'name': pick(rng, ['ul', 'div', 'p']), 'attributes': attrs}}
         if r < 0.8 and stype != 'stylesheet':
             if maybe(rng, 0.25):
                 return {'op': 'edit_cfg', 'cfg': cid, 'path': ['text'], 'delete': True}
